@@ -236,63 +236,3 @@ Proof.
   - eapply wf_cols_nonempty; eassumption.
   - apply wf_single_rows; assumption.
 Qed.
-
-Lemma store_bool_logical : forall f skipna ddof l, is_logical f = true ->
-  store_bool (S_line f skipna ddof l) = S_line f skipna ddof l.
-Proof.
-  intros f skipna ddof l H. unfold S_line. destruct f; try discriminate;
-    (destruct (has_missing l && negb skipna); [reflexivity|]); cbn [S_present store_bool];
-    rewrite qnonzero_qbool; reflexivity.
-Qed.
-
-(* ------------------------------------------------------------------ THE refinement *)
-Theorem M_frame_refines : forall f axis skipna ddof r bs,
-  wf_frame r bs = true -> (axis = 0 \/ axis = 1) ->
-  dom c15_table f axis skipna r bs = true ->
-  M_frame c15_table f axis skipna ddof r bs = S_frame f axis skipna ddof r (frame_cells bs).
-Proof.
-  intros f axis skipna ddof r bs Hwf Hax Hdom. unfold S_frame.
-  destruct bs as [|b [|b2 bs]].
-  - discriminate.
-  - cbn [M_frame]. unfold frame_cells, flatten. cbn [map flat_map]. rewrite app_nil_r. reflexivity.
-  - cbn [M_frame].
-    assert (Hm : multi (b :: b2 :: bs) = true) by reflexivity.
-    revert Hwf Hdom Hm. generalize (b :: b2 :: bs). clear b b2 bs. intros bs Hwf Hdom Hm.
-    unfold dom in Hdom. rewrite Hm in Hdom. cbn [andb] in Hdom.
-    apply andb_true_iff in Hdom as [Hdom Hd3]. apply andb_true_iff in Hdom as [_ Hd2].
-    unfold M_multi. destruct Hax as [-> | ->].
-    + (* axis 0 *)
-      cbn [Z.eqb] in *. rewrite andb_true_l in Hd2, Hd3.
-      apply negb_true_iff in Hd2. rewrite Hd2.
-      rewrite M_axis0_flatten. unfold lines. cbn [Z.eqb]. unfold frame_cells.
-      f_equal. apply map_ext. intros c.
-      destruct (out_is_bool (c15_table f) (row_kind (frame_kinds bs))); [|reflexivity].
-      cbn [andb] in Hd3. apply negb_true_iff, negb_false_iff in Hd3.
-      apply store_bool_logical. exact Hd3.
-    + (* axis 1 *)
-      change (1 =? 0) with false. cbv iota. unfold lines. change (1 =? 0) with false. cbv iota.
-      destruct f; cbn [c15_table fl_composable fl_unity];
-        try (rewrite M_axis1_cons_rows; reflexivity).
-      * (* min *)
-        f_equal. apply (comp_path Fmin skipna ddof (lift skipna qminl) None (fun c => c) out_of_num);
-          [apply lift_assoc, qminl_assoc | apply inj_out_num | intros; apply S_line_min_fold; assumption | assumption].
-      * (* max *)
-        f_equal. apply (comp_path Fmax skipna ddof (lift skipna qmaxl) None (fun c => c) out_of_num);
-          [apply lift_assoc, qmaxl_assoc | apply inj_out_num | intros; apply S_line_max_fold; assumption | assumption].
-      * (* all *)
-        f_equal. destruct skipna.
-        -- apply (comp_path Fall true ddof andb true g_all_skip out_of_bool);
-             [intros; symmetry; apply andb_assoc | apply inj_out_bool
-             | intros; apply S_line_all_skip_fold; assumption | assumption].
-        -- apply (comp_path Fall false ddof (lift_prop andb) None g_logic out_of_obool);
-             [apply lift_prop_assoc; intros; symmetry; apply andb_assoc | apply inj_out_obool
-             | intros; apply S_line_all_prop_fold; assumption | assumption].
-      * (* any *)
-        f_equal. destruct skipna.
-        -- apply (comp_path Fany true ddof orb false g_any_skip out_of_bool);
-             [intros; symmetry; apply orb_assoc | apply inj_out_bool_any
-             | intros; apply S_line_any_skip_fold; assumption | assumption].
-        -- apply (comp_path Fany false ddof (lift_prop orb) None g_logic out_of_obool);
-             [apply lift_prop_assoc; intros; symmetry; apply orb_assoc | apply inj_out_obool
-             | intros; apply S_line_any_prop_fold; assumption | assumption].
-Qed.
